@@ -107,6 +107,9 @@ class RefsExtractor(ConversionsVisitor, ObjectVisitor, WithConversionsResolver):
 
     def object(self, tp: AnyType, fields: Sequence[ObjectField]):
         if parent := get_discriminated_parent(get_origin_or_type(tp)):
+            # discriminated parent is always referenced by its children, so increment
+            # twice in order to ensure ref count > 1
+            self._incr_ref(get_type_name(parent).json_schema, parent)
             self._incr_ref(get_type_name(parent).json_schema, parent)
         for field in fields:
             self.visit_with_conv(field.type, self._field_conversion(field))
